@@ -167,7 +167,8 @@ Section XKey.
            if priv_valid sk then Ok (mk_xkey KPriv depth pfp n cc sk) else Err EBadKey
     else Err EVersion.
 
-  (* _from_extended_key builds the key object with parent=None: the fingerprint bytes are not kept *)
+  (* _from_extended_key builds the key object with parent=None: the fingerprint bytes are not kept, the object
+     reports (and re-serialises) 00000000.  Known finding {"op":"xparse","finding":"parent-fingerprint-dropped"}. *)
   Definition xk_forget_parent (k : xkey) : xkey :=
     mk_xkey (xk_kind k) (xk_depth k) zero4 (xk_n k) (xk_cc k) (xk_key k).
   Definition xk_from_extended (e : bytes) : res xkey := res_map xk_forget_parent (xk_parse e).
@@ -333,6 +334,46 @@ Section Gap.
     end.
   Definition max_gap (t : list row) : N := max_gap_go t 0 0.
 End Gap.
+
+(* ---------------------------------------------------------------- one database, two address managers *)
+(* account_address rows are keyed by (account id, chain).  A single-address account and a deterministic account of
+   the same mnemonic have the same account id, and both use chain 0; their rows differ in the key depth (the account
+   key itself vs. a grandchild).  [flt = false] is what the code does: a manager looks at every chain-0 row of the
+   account id (known findings {"op":"generator_switch",...}); [flt = true] is the design in which each manager
+   filters the rows it looks at by its own key depth. *)
+Section Shared.
+  Variable addr_of : N -> bytes.          (* m/0/n *)
+  Variable master_addr : bytes.           (* address of the account key itself *)
+  Variable flt : bool.
+
+  Definition srow : Type := bool * row.   (* true: written by the single-address manager *)
+  Definition rows_of (single : bool) (t : list srow) : list row :=
+    map snd (filter (fun x => Bool.eqb (fst x) single) t).
+  (* what a manager's _query_addresses returns, in table order *)
+  Definition manager_view (single : bool) (t : list srow) : list row :=
+    if flt then rows_of single t else map snd t.
+
+  Inductive sop := SHd (op : gop) | SSingleEnsure.
+
+  Definition sstep (t : list srow) (op : sop) : list srow :=
+    match op with
+    | SHd (GEnsure g) =>
+      let v := manager_view false t in
+      t ++ map (pair false) (skipn (length v) (fst (ensure_gap addr_of g v)))
+    | SHd (GUse n k) =>
+      (* pubkey_address is keyed by address: the counter of every row with that address changes *)
+      map (fun x => (fst x, if bytes_eqb (r_addr (snd x)) (addr_of n) then mk_row (r_n (snd x)) (r_addr (snd x)) k else snd x)) t
+    | SSingleEnsure =>
+      (* SingleKey.ensure_address_gap: add the account key unless the manager already sees a row *)
+      match manager_view true t with
+      | [] => t ++ [(true, mk_row 0 master_addr 0)]
+      | _ => t
+      end
+    end.
+  Definition srun (ops : list sop) : list srow := fold_left sstep ops [].
+  Fixpoint hd_ops (ops : list sop) : list gop :=
+    match ops with [] => [] | SHd o :: r => o :: hd_ops r | SSingleEnsure :: r => hd_ops r end.
+End Shared.
 
 (* ---------------------------------------------------------------- mnemonic *)
 Definition space : byte := x20.
